@@ -45,14 +45,48 @@
                            `lock_discipline_on_tree`, `counts_atomic_on_tree`,
                            `closures_own_on_tree` are the generated obligations.
 
+                           (d) the crate's process-global state: no `static mut`,
+                           no unlocked interior mutability, every use of the type
+                           registry is `lock()` (`globals_sound`,
+                           `global_mutex_access_exclusive`,
+                           `globals_disciplined_on_tree`).
+
+  T5 `accepted_items_noninterfere`
+                           THE COMPOSITION T2 ∘ T1: a machine semantics of LIR
+                           items on one global store (Model/ConcExec: frames,
+                           fresh stack slots per activation, loads / stores /
+                           block copies, calls between items; arithmetic, control
+                           and Rust callees as parameters). For every program
+                           accepted by `acceptProg` (= `Lir.accept` on every item
+                           + the call-site check), every behaviour of Rust callees
+                           with `RtConfined`, every number of calls and EVERY
+                           schedule: each machine step is a `LocalStep` of T1
+                           (`accepted_steps_local`), so every call ends exactly as
+                           in its solo run and shared memory is unchanged.
+                           `rtConfined_of_sync` derives `RtConfined` from T3.
+                           `c12_concurrent_use` / `c12_on_tree`: C12 as ONE theorem
+                           — T5 ∧ T4's conclusions from the checker's verdict, the
+                           generated obligations and the named trusted hypotheses.
+
+  T6                       every `lir::Instruction` kind is inside the model
+                           (`Generated/C12Instr`: kinds, fields, codegen and
+                           interpreter operations): `instr_kinds_classified`,
+                           `roles_match_model`, `okInstr_demands`,
+                           `events_by_roles`, `regs_by_roles`,
+                           `codegen_ops_match_model`, `eval_ops_match_model`.
+
   Not modelled (exercised by the stress harness only): data races inside the
-  machine code itself, the global `TypeRegistry` mutex, the `symbol_table`
+  machine code itself (T5's machine is at the level of LIR instructions; that a
+  stack slot is memory of the running thread is trusted), the `symbol_table`
   interner.
 -/
 import RotoV.Lemmas.Conc
 import RotoV.Lemmas.ConcShare
+import RotoV.Lemmas.ConcExec
+import RotoV.Model.ConcInstr
 import RotoV.Generated.C12Bounds
 import RotoV.Generated.C12Sharing
+import RotoV.Generated.C12Globals
 
 namespace RotoV.C12
 open RotoV.Conc
@@ -251,7 +285,7 @@ def good : Item where
     .clone (.var 10) (.var 5),
     .callRt [.var 11, .var 10, .var 4],
     .offset 6 (.var 1) 8,
-    .copy (.var 6) (.var 11),
+    .copy (.var 6) (.var 11) 8,
     .nop]
 
 /-- the same with the clone skipped: the constant's address is used as a place -/
@@ -613,6 +647,103 @@ theorem non_owning_closure_dangles :
     ownRun false [0, 1] [.call, .dropOwner 0, .call, .dropOwner 1, .call] = false := by
   decide
 
+/-! ### (d) process-global state (the type registry) -/
+
+/-- the semantic reading of the decision over the generated list of `static`s -/
+def GlobalsSound (f : GlobalFacts) : Prop :=
+  ∀ s ∈ f.statics, s.isMut = false ∧ s.kind ≠ .other
+    ∧ (s.kind.lockKind ≠ .none →
+        s.uses ≠ [] ∧ ∀ u ∈ s.uses, ∃ m, u.mode = some m ∧ modeValid s.kind.lockKind m = true)
+
+/-- **T4 (d).** The decision over the generated facts is exactly: no `static mut`,
+no global with unlocked interior mutability, and every occurrence of a
+lock-shaped global's name is an acquisition valid for its lock — the data inside
+is reachable through a guard only. -/
+theorem globals_sound (f : GlobalFacts) : globalsDisciplined f = true ↔ GlobalsSound f := by
+  unfold globalsDisciplined GlobalsSound
+  simp only [List.all_eq_true]
+  constructor
+  · intro h s hs
+    have := h s hs
+    unfold StaticFact.disciplined at this
+    simp only [Bool.and_eq_true, Bool.not_eq_eq_eq_not, Bool.not_true] at this
+    obtain ⟨hm, hk⟩ := this
+    refine ⟨hm, ?_, ?_⟩
+    · intro hc; rw [hc] at hk; cases hk
+    · intro hl
+      cases hkind : s.kind with
+      | atomic => rw [hkind] at hl; exact absurd rfl hl
+      | immutable => rw [hkind] at hl; exact absurd rfl hl
+      | other => rw [hkind] at hk; cases hk
+      | mutex =>
+        rw [hkind] at hk
+        simp only [Bool.and_eq_true, List.all_eq_true, Bool.not_eq_eq_eq_not, Bool.not_true,
+          List.isEmpty_eq_false_iff] at hk
+        refine ⟨hk.1, fun u hu => ?_⟩
+        have := hk.2 u hu
+        cases hmode : u.mode with
+        | none => rw [hmode] at this; cases this
+        | some m => rw [hmode] at this; exact ⟨m, rfl, this⟩
+      | rwlock =>
+        rw [hkind] at hk
+        simp only [Bool.and_eq_true, List.all_eq_true, Bool.not_eq_eq_eq_not, Bool.not_true,
+          List.isEmpty_eq_false_iff] at hk
+        refine ⟨hk.1, fun u hu => ?_⟩
+        have := hk.2 u hu
+        cases hmode : u.mode with
+        | none => rw [hmode] at this; cases this
+        | some m => rw [hmode] at this; exact ⟨m, rfl, this⟩
+  · intro h s hs
+    obtain ⟨hm, hk, hl⟩ := h s hs
+    unfold StaticFact.disciplined
+    simp only [hm, Bool.not_false, Bool.true_and]
+    cases hkind : s.kind with
+    | atomic => rfl
+    | immutable => rfl
+    | other => exact absurd hkind hk
+    | mutex =>
+      have := hl (by rw [hkind]; decide)
+      simp only [Bool.and_eq_true, List.all_eq_true, Bool.not_eq_eq_eq_not, Bool.not_true,
+        List.isEmpty_eq_false_iff]
+      refine ⟨this.1, fun u hu => ?_⟩
+      obtain ⟨m, hmode, hv⟩ := this.2 u hu
+      rw [hmode]; rw [hkind] at hv; exact hv
+    | rwlock =>
+      have := hl (by rw [hkind]; decide)
+      simp only [Bool.and_eq_true, List.all_eq_true, Bool.not_eq_eq_eq_not, Bool.not_true,
+        List.isEmpty_eq_false_iff]
+      refine ⟨this.1, fun u hu => ?_⟩
+      obtain ⟨m, hmode, hv⟩ := this.2 u hu
+      rw [hmode]; rw [hkind] at hv; exact hv
+
+/-- **(d), on the lock machine.** Any number of instances use a `Mutex`-shaped
+global, each through one of the generated occurrences of its name. If the
+discipline holds, then in every trace the lock admits an instance that accesses
+the data is the only holder (the registry is never read while another thread
+inserts into it). -/
+theorem global_mutex_access_exclusive (f : GlobalFacts) (hd : globalsDisciplined f = true)
+    (s : StaticFact) (hs : s ∈ f.statics) (hk : s.kind = .mutex)
+    (use : ι → GlobalUse) (huse : ∀ i, use i ∈ s.uses)
+    (pre post : List (Ev ι)) (i : ι) (w : Bool) (Hf : List ι)
+    (hrun : runLock .mutex (fun j => ((use j).mode).getD .mutexLock) [] (pre ++ .acc i w :: post) = some Hf) :
+    runLock .mutex (fun j => ((use j).mode).getD .mutexLock) [] pre = some [i] := by
+  obtain ⟨_, _, hl⟩ := (globals_sound f).mp hd s hs
+  have hl := (hl (by rw [hk]; decide)).2 (use i) (huse i)
+  obtain ⟨m, hmode, hv⟩ := hl
+  rw [hk] at hv
+  have hg : grantsExcl .mutex (((use i).mode).getD .mutexLock) = true := by
+    rw [hmode]
+    cases m <;> simp_all [modeValid, GlobalKind.lockKind, grantsExcl]
+  obtain ⟨H, hpre, hw, _⟩ := exclusive_writes .mutex _ pre post (.acc i w) Hf hrun
+  rw [hpre, hw i w rfl hg]
+
+/-- no `static mut`, no unlocked interior mutability in a global, every use of
+the type registry is `lock()` — on the current tree -/
+theorem globals_disciplined_on_tree : globalsDisciplined Gen.C12Globals.facts = true := by decide
+
+theorem globals_sound_on_tree : GlobalsSound Gen.C12Globals.facts :=
+  (globals_sound _).mp globals_disciplined_on_tree
+
 /-! ### the generated obligations -/
 
 /-- every mutation of the shared list on the current tree happens under an
@@ -718,8 +849,540 @@ example :
       have e1 : ¬ (1 : Nat) = i := fun e => h1 e.symm
       simp [projMicro, swapProg, Micro.toEv, Ev.inst, e0, e1]
 
+/-- non-vacuity of (d): the decision accepts a registry behind `LazyLock<Mutex<…>>`
+used through `lock()` only, and rejects a use that bypasses the lock, a
+`static mut`, a `RefCell` global and a lock-shaped global nobody locks -/
+example :
+    globalsDisciplined { threadLocals := 0, statics := [{ kind := .mutex, isMut := false, uses := [.lock, .lock] },
+                                                        { kind := .atomic, isMut := false, uses := [] }] } = true
+    ∧ globalsDisciplined { threadLocals := 0, statics := [{ kind := .mutex, isMut := false, uses := [.lock, .other] }] } = false
+    ∧ globalsDisciplined { threadLocals := 0, statics := [{ kind := .immutable, isMut := true, uses := [] }] } = false
+    ∧ globalsDisciplined { threadLocals := 0, statics := [{ kind := .other, isMut := false, uses := [] }] } = false
+    ∧ globalsDisciplined { threadLocals := 0, statics := [{ kind := .mutex, isMut := false, uses := [] }] } = false
+    ∧ globalsDisciplined { threadLocals := 0, statics := [{ kind := .mutex, isMut := false, uses := [.read] }] } = false := by
+  decide
+
+/-- the hypotheses of `global_mutex_access_exclusive` are satisfiable on the
+generated facts: two instances, `store` then `get` -/
+example :
+    ∃ s ∈ Gen.C12Globals.facts.statics, s.kind = .mutex ∧ GlobalUse.lock ∈ s.uses
+      ∧ runLock .mutex (fun (_ : Nat) => LockMode.mutexLock) []
+          ([.acq 0, .acc 0 true, .rel 0, .acq 1] ++ .acc 1 false :: [.rel 1]) = some [] := by
+  decide
+
 example : countRun (1, 0) [.clone, .clone, .drop, .drop, .drop] = some (0, 1) := by decide
 
 end T4Example
+
+/-! ## T5 — the composition: accepted items run by any number of threads
+
+T2's checker discharges the frame hypothesis of T1 for the steps of generated
+code. The machine is `Exec.mstep` (Model/ConcExec): one global store; every
+call has private state (frames, registers, program counters), call-local memory
+(stack slots fresh per activation, the host's return buffer and by-reference
+arguments) and shares constants, context and everything else with all other
+calls. Calls between items push and pop frames; Rust code called from generated
+code is a parameter constrained by `RtConfined`. -/
+
+section T5
+open Lir Exec
+variable {ι : Type} [DecidableEq ι]
+
+/-- **Every step of an accepted program is a `LocalStep` of T1** (guarded by the
+checker's invariant), and on every store in which the stepping call satisfies
+that invariant the guarded step is the machine step itself. The invariant holds
+initially (`initState_good`) and is kept by every step of every call
+(`mstep_good`), so along every schedule the guard never fires. -/
+theorem accepted_steps_local (prog : List Item) (hacc : acceptProg prog = true)
+    (sem : Sem) (hrt : RtConfined sem) (i : ι) :
+    LocalStep Exec.owner i (gstep prog sem i)
+    ∧ (∀ m : Store ι, GoodAt prog i m → gstep prog sem i m = mstep prog sem i m)
+    ∧ (∀ m : Store ι, (∀ j, GoodAt prog j m) → ∀ j, GoodAt prog j (mstep prog sem i m)) :=
+  ⟨gstep_local hacc hrt i, fun _ h => gstep_good h, fun m h => mstep_good hacc hrt i m h⟩
+
+/-- **T5 (T2 ∘ T1).** `prog` is any set of items accepted by the verified checker
+(`acceptProg` = `Lir.accept` on every item + the call-site check), `sem` any
+behaviour of arithmetic, control flow and Rust callees with `RtConfined`. Any
+number of calls `ι`, each in a state satisfying the checker's invariant (e.g.
+`initState`: just started by the host, `accepted_calls_noninterfere`), take
+steps in ANY order `sched` (any number of threads, any schedule, including calls
+that never finish). Then every address owned by call `i` — its registers, its
+result, its host-value counter, its stack slots, its return buffer — ends with
+exactly the content it has when call `i` takes the same number of steps ALONE
+from the initial store, and every shared address (constants, context) is
+unchanged. The proof instantiates T1 `noninterference` with the guarded steps. -/
+theorem accepted_items_noninterfere (prog : List Item) (hacc : acceptProg prog = true)
+    (sem : Sem) (hrt : RtConfined sem) (m0 : Store ι) (h0 : ∀ i, GoodAt prog i m0)
+    (sched : List ι) :
+    (∀ i a, Exec.owner a = some i →
+      run (schedOf (mstep prog sem) sched) m0 a
+        = runSolo (List.replicate (sched.count i) (mstep prog sem i)) m0 a)
+    ∧ (∀ a, Exec.owner a = none → run (schedOf (mstep prog sem) sched) m0 a = m0 a) := by
+  have hloc : ∀ p ∈ schedOf (gstep prog sem) sched, LocalStep Exec.owner p.1 p.2 := by
+    intro p hp
+    simp only [schedOf, List.mem_map] at hp
+    obtain ⟨i, _, rfl⟩ := hp
+    exact gstep_local hacc hrt i
+  have h := noninterference Exec.owner (schedOf (gstep prog sem) sched) hloc m0
+  rw [run_guard_eq hacc hrt sched m0 h0]
+  refine ⟨fun i a ha => ?_, h.2⟩
+  rw [h.1 i a ha, proj_schedOf, runSolo_guard_eq hacc hrt i _ m0 h0]
+
+/-- what the host observes of call `i` in a store -/
+def resultOf (m : Store ι) (i : ι) : Option Val :=
+  match m (.priv i) with
+  | .priv s => s.result
+  | .val _ => none
+
+def acctOf (m : Store ι) (i : ι) : Int :=
+  match m (.priv i) with
+  | .priv s => s.acct
+  | .val _ => 0
+
+def finished (m : Store ι) (i : ι) : Bool :=
+  match m (.priv i) with
+  | .priv s => s.stack.isEmpty
+  | .val _ => false
+
+/-- **T5 for calls started by the host.** Call `i` runs item `(calls i).1` with
+scalar arguments `(calls i).2`, by-reference arguments and the return buffer in
+host memory of that call, on an arbitrary initial memory `m0`. Under every
+schedule: the returned value, the return buffer, whether the call has finished
+and the call's host-value counter equal those of the solo run; constants and
+the context are never modified. -/
+theorem accepted_calls_noninterfere (prog : List Item) (hacc : acceptProg prog = true)
+    (sem : Sem) (hrt : RtConfined sem) (calls : ι → Nat × (Var → Int)) (m0 : Store ι)
+    (hinit : ∀ i, m0 (.priv i) = .priv (initState prog (calls i).1 (calls i).2))
+    (sched : List ι) (i : ι) :
+    let conc := run (schedOf (mstep prog sem) sched) m0
+    let solo := runSolo (List.replicate (sched.count i) (mstep prog sem i)) m0
+    resultOf conc i = resultOf solo i
+    ∧ finished conc i = finished solo i
+    ∧ acctOf conc i = acctOf solo i
+    ∧ (∀ r off, r.isLocal = true → conc (.loc i r off) = solo (.loc i r off))
+    ∧ (∀ r off, conc (.shared r off) = m0 (.shared r off)) := by
+  have h0 : ∀ j, GoodAt prog j m0 := fun j => ⟨_, hinit j, initState_good hacc _ _⟩
+  have h := accepted_items_noninterfere prog hacc sem hrt m0 h0 sched
+  have hp := h.1 i (.priv i) rfl
+  refine ⟨?_, ?_, ?_, fun r off _ => h.1 i (.loc i r off) rfl, fun r off => h.2 (.shared r off) rfl⟩
+  · simp only [resultOf, hp]
+  · simp only [finished, hp]
+  · simp only [acctOf, hp]
+
+/-- **the solo result is final**: once call `i` has returned in its solo run, any
+further steps change nothing — so "the same number of steps alone" in T5 is
+"the complete single-threaded call" as soon as the concurrent call has
+finished (`finished conc i = finished solo i`). -/
+theorem solo_result_final (prog : List Item) (sem : Sem) (i : ι) (m0 : Store ι) (n k : Nat)
+    (hfin : finished (runSolo (List.replicate n (mstep prog sem i)) m0) i = true) :
+    runSolo (List.replicate (n + k) (mstep prog sem i)) m0
+      = runSolo (List.replicate n (mstep prog sem i)) m0 := by
+  rw [← List.replicate_append_replicate, runSolo_append]
+  simp only [finished] at hfin
+  cases hs : runSolo (List.replicate n (mstep prog sem i)) m0 (.priv i) with
+  | val v => rw [hs] at hfin; cases hfin
+  | priv s =>
+    rw [hs] at hfin
+    exact runSolo_finished prog sem i _ s hs (by simpa using hfin) k
+
+/-- **T5, accounting.** If every call balances its host values when run alone
+(C03), the calls balance under every schedule (each call's counter is private
+state; the global counter of T1 `accounting_balances` is their sum). -/
+theorem accepted_calls_accounting (prog : List Item) (hacc : acceptProg prog = true)
+    (sem : Sem) (hrt : RtConfined sem) (m0 : Store ι) (h0 : ∀ i, GoodAt prog i m0)
+    (sched : List ι) (cs : List ι)
+    (hsolo : ∀ i ∈ cs, acctOf (runSolo (List.replicate (sched.count i) (mstep prog sem i)) m0) i = 0) :
+    (cs.map (acctOf (run (schedOf (mstep prog sem) sched) m0))).sum = 0 := by
+  have h := accepted_items_noninterfere prog hacc sem hrt m0 h0 sched
+  have : ∀ i ∈ cs, acctOf (run (schedOf (mstep prog sem) sched) m0) i = 0 := by
+    intro i hi
+    have hp := h.1 i (.priv i) rfl
+    have := hsolo i hi
+    simp only [acctOf] at this ⊢
+    rw [hp]; exact this
+  induction cs with
+  | nil => rfl
+  | cons c cs ih =>
+    simp only [List.map_cons, List.sum_cons]
+    rw [this c (List.mem_cons_self ..), ih (fun i hi => hsolo i (List.mem_cons_of_mem _ hi))
+      (fun i hi => this i (List.mem_cons_of_mem _ hi))]
+    rfl
+
+/-! ### the assumption about Rust callees, tied to T3 -/
+
+/-- The Rust object behind a call site of generated code (a registered
+function / closure, the clone / drop / eq glue of a registered value type, a
+registered constant): the auto traits of its type and the bound list it was
+admitted through (one of the lists the translator regenerates). -/
+structure RtSite where
+  auto : Bounds.Auto
+  bounds : List Bounds.Bound
+
+/-- every Rust object generated code reaches was admitted through one of the
+generated bound lists (registration compiled) -/
+def SitesAdmitted (f : Bounds.Facts) (site : Nat → Nat → RtSite) : Prop :=
+  ∀ fn pc, (site fn pc).bounds ∈ Bounds.reachable f
+    ∧ Bounds.admits (site fn pc).bounds (site fn pc).auto = true
+
+/-- TRUSTED (the meaning of `Send + Sync` in Rust, plus the modelling
+assumption of `RtConfined`): Rust code whose state is `Send + Sync`, called
+through a shared reference from generated code, touches non-synchronised memory
+only through the pointers it is handed for writing. Nothing is assumed about a
+site whose type is not `Send + Sync`. -/
+def SyncConfines (sem : Sem) (site : Nat → Nat → RtSite) : Prop :=
+  ∀ fn pc, (site fn pc).auto.send = true ∧ (site fn pc).auto.sync = true →
+    ∀ handed ro view, ∀ w ∈ (sem.rt fn pc handed ro view).writes, w.1 ∈ handed.flatMap atarget
+
+/-- `RtConfined` follows from T3's decision over the generated bound lists: if
+the bounds were weaker (the tree before the `+ Sync` fix), a `Send`-only closure
+would be admitted and nothing could be concluded about its site. -/
+theorem rtConfined_of_sync (f : Bounds.Facts) (hsound : SharingSound f) (sem : Sem)
+    (site : Nat → Nat → RtSite) (hadm : SitesAdmitted f site) (hsync : SyncConfines sem site) :
+    RtConfined sem := by
+  intro fn pc handed ro view w hw
+  obtain ⟨hb, ha⟩ := hadm fn pc
+  exact hsync fn pc (hsound.2 _ hb _ ha) handed ro view w hw
+
+/-- the statement of `exclusive_swaps_permute`, as a property of sharing facts -/
+def SwapsSerialise (f : Share.Facts) : Prop :=
+  ∀ (site : Nat → Share.LockSite), (∀ i, site i ∈ f.lockSites) →
+    (∀ i, Share.siteNeedsExcl f (site i) = true) →
+    ∀ (a b : Nat → Nat) (tr : List Share.Micro) (arr : List Nat),
+      Share.runLock (Share.lockKind f.listCell) (fun j => (site j).mode) [] (tr.map Share.Micro.toEv) = some [] →
+      (∀ i, Share.projMicro i tr = [] ∨ Share.projMicro i tr = Share.swapProg i (a i) (b i)) →
+      (∀ i, a i < arr.length ∧ b i < arr.length) →
+      Share.execMicro (arr, []) tr = (Share.acqOrder tr).foldl (fun arr i => Share.swapList arr (a i) (b i)) arr
+      ∧ (Share.execMicro (arr, []) tr).Perm arr
+
+/-- **C12 as one theorem.** Hypotheses, each either decided from generated
+facts, run by the driver on real compiler output, or named as trusted:
+
+* `hacc`    the verified checker accepts every item of the program (driver, on
+            the real LIR dump of every generated script);
+* `hbounds` T3's decision over the bound lists generated from the sources;
+* `hshare`  T4's decision over the sharing facts generated from the sources;
+* `hglobals` T4 (d): the decision over the generated list of `static`s;
+* `hadm`, `hsync`  TRUSTED: every Rust object generated code reaches was
+            admitted through one of those bound lists, and `Send + Sync` Rust
+            code stays within the pointers it is handed;
+* TRUSTED, built into `Exec.resolve`: stack slots and host buffers of a call
+  are memory of that call (Cranelift stack slots are thread-private).
+
+Conclusion: (1) under every schedule of any number of calls each call's result,
+return buffer, termination and host-value counter equal its solo run, and
+constants and context are never written; (2) every mutation of a shared list is
+exclusive, so concurrent swaps serialise in lock order and leave a permutation;
+no `Rc` and no unlocked cell is reachable from an `unsafe impl Send/Sync` type
+(so every shared count is the exact, free-once machine of
+`arc_frees_exactly_once`); every closure derived from a handle owns the module
+(`owning_closure_never_dangles`); (3) the only process-global mutable state of
+the crate is behind a `Mutex` that every use locks (`global_mutex_access_exclusive`). -/
+theorem c12_concurrent_use
+    (fB : Bounds.Facts) (fS : Share.Facts) (fG : Share.GlobalFacts)
+    (hclaim : Bounds.claimed fB = true) (hbounds : Bounds.syncJustified fB = true)
+    (hshare : Share.shareJustified fS = true) (hglobals : Share.globalsDisciplined fG = true)
+    (prog : List Item) (hacc : acceptProg prog = true)
+    (sem : Sem) (site : Nat → Nat → RtSite) (hadm : SitesAdmitted fB site) (hsync : SyncConfines sem site)
+    (calls : ι → Nat × (Var → Int)) (m0 : Store ι)
+    (hinit : ∀ i, m0 (.priv i) = .priv (initState prog (calls i).1 (calls i).2))
+    (sched : List ι) :
+    (∀ i,
+      let conc := run (schedOf (mstep prog sem) sched) m0
+      let solo := runSolo (List.replicate (sched.count i) (mstep prog sem i)) m0
+      resultOf conc i = resultOf solo i ∧ finished conc i = finished solo i
+      ∧ acctOf conc i = acctOf solo i
+      ∧ (∀ r off, r.isLocal = true → conc (.loc i r off) = solo (.loc i r off))
+      ∧ (∀ r off, conc (.shared r off) = m0 (.shared r off)))
+    ∧ ShareSound fS ∧ SwapsSerialise fS
+    ∧ (∀ tr owners, Share.ownRun true owners tr = true)
+    ∧ GlobalsSound fG := by
+  have hrt : RtConfined sem :=
+    rtConfined_of_sync fB ((sync_sound fB).mp hbounds hclaim) sem site hadm hsync
+  have hss := (share_sound fS).mp hshare
+  have hd : Share.lockDiscipline fS = true := by
+    unfold Share.shareJustified at hshare
+    simp only [Bool.and_eq_true] at hshare
+    exact hshare.1.1
+  refine ⟨fun i => accepted_calls_noninterfere prog hacc sem hrt calls m0 hinit sched i, hss, ?_,
+    fun tr owners => owning_closure_never_dangles tr owners, (globals_sound fG).mp hglobals⟩
+  intro site' hsite hmut a b tr arr hrun hprog hb
+  exact exclusive_swaps_permute fS hd site' hsite hmut a b tr arr hrun hprog hb
+
+/-- **C12 on the current tree**: the generated obligations discharged
+(`sync_holds_on_tree`, `lock_discipline_on_tree`, `counts_atomic_on_tree`,
+`closures_own_on_tree`, `globals_disciplined_on_tree`). What remains are the checker's verdict on the program
+at hand (decided by the driver for every generated script) and the trusted
+hypotheses. -/
+theorem c12_on_tree
+    (prog : List Item) (hacc : acceptProg prog = true)
+    (sem : Sem) (site : Nat → Nat → RtSite)
+    (hadm : SitesAdmitted Gen.C12Bounds.facts site) (hsync : SyncConfines sem site)
+    (calls : ι → Nat × (Var → Int)) (m0 : Store ι)
+    (hinit : ∀ i, m0 (.priv i) = .priv (initState prog (calls i).1 (calls i).2))
+    (sched : List ι) :
+    (∀ i,
+      let conc := run (schedOf (mstep prog sem) sched) m0
+      let solo := runSolo (List.replicate (sched.count i) (mstep prog sem i)) m0
+      resultOf conc i = resultOf solo i ∧ finished conc i = finished solo i
+      ∧ acctOf conc i = acctOf solo i
+      ∧ (∀ r off, r.isLocal = true → conc (.loc i r off) = solo (.loc i r off))
+      ∧ (∀ r off, conc (.shared r off) = m0 (.shared r off)))
+    ∧ ShareSound Gen.C12Sharing.facts ∧ SwapsSerialise Gen.C12Sharing.facts
+    ∧ (∀ tr owners, Share.ownRun true owners tr = true)
+    ∧ GlobalsSound Gen.C12Globals.facts :=
+  c12_concurrent_use Gen.C12Bounds.facts Gen.C12Sharing.facts Gen.C12Globals.facts
+    sync_holds_on_tree.1 sync_holds_on_tree.2
+    (by unfold Share.shareJustified
+        rw [lock_discipline_on_tree, counts_atomic_on_tree, closures_own_on_tree]; rfl)
+    globals_disciplined_on_tree
+    prog hacc sem site hadm hsync calls m0 hinit sched
+
+end T5
+
+/-! ## T6 — every instruction kind of the source is inside the model
+
+The list of `lir::Instruction` kinds, their fields (name, type class) and the
+memory / call operations the machine-code generator emits for each kind are
+regenerated from `src/lir/mod.rs` and `src/codegen/mod.rs` (`Generated/C12Instr`).
+`Classify.shapeOf` / `Classify.roles` send every kind they do not list to
+`unclassified`, which `instr_kinds_classified` forbids: a new kind breaks that
+obligation until it is classified. -/
+
+section T6
+open Lir Classify Gen.C12Instr
+
+/-- every generated kind is classified; its generated field list is the
+classified one (names, order) and every field that can carry a variable has a
+role fitting its type -/
+theorem instr_kinds_classified : kinds.all kindClassified = true := by decide
+
+/-- `kinds` lists every constructor of the generated enum -/
+theorem instr_kinds_complete : ∀ k : Kind, k ∈ kinds := by
+  intro k; cases k <;> decide
+
+/-- the roles given to the fields of a kind are exactly what the model
+instruction it is parsed to accounts for (defines a variable / number of
+operands written through / hands operands to a callee) -/
+theorem roles_match_model : ∀ k : Kind, roleSummary (roles k) = shapeSummary (shapeOf k) := by
+  intro k; cases k <;> decide
+
+/-- **tie to the machine-code generator**: for every kind, the memory / call
+operations `FuncGen::instruction` emits are those the model's step assumes — a
+`store` only for `Write`, a block copy only for `Copy` / `Initialize`, a `load`
+only for `Read`, direct calls only for `Call` / `CallRuntime`, indirect calls
+into Rust glue only for `InitString` / `Clone` / `Eq` / `Drop`, and NOTHING that
+touches memory or other code for the arithmetic, comparison, address and
+control kinds. -/
+theorem codegen_ops_match_model : ∀ k : Kind, codegenMatches k = true := by
+  intro k; cases k <;> decide
+
+/-- **tie to the reference interpreter** (`lir::eval::eval`, what C20 compares
+compiled code with): for every kind, the effectful memory operations of its arm
+are those of the model's machine — `Call` pushes a frame and allocates fresh
+slots, `Return` pops it, `Write` / `Read` / `Copy` are one store / load / block
+copy, initialisers write fresh call-local memory, glue and runtime functions are
+calls into Rust code, and the 17 arithmetic, address and control kinds touch no
+memory. -/
+theorem eval_ops_match_model : ∀ k : Kind, evalMatches k = true := by
+  intro k; cases k <;> decide
+
+/-- every model instruction stays within the summary of its shape -/
+theorem model_within_shape (ins : Instr) :
+    ((defVar ins).isSome = true → (shapeSummary (Shape.of ins)).defines = true)
+    ∧ (writeOps ins).length ≤ (shapeSummary (Shape.of ins)).writes
+    ∧ (handedOps ins ≠ [] → (shapeSummary (Shape.of ins)).handed = true) := by
+  cases ins with
+  | call f to isPtr ctx retPtr args =>
+    cases retPtr <;> simp [defVar, writeOps, handedOps, Shape.of, shapeSummary]
+  | drop v hasFn => cases hasFn <;> simp [defVar, writeOps, handedOps, Shape.of, shapeSummary]
+  | _ => simp [defVar, writeOps, handedOps, Shape.of, shapeSummary]
+
+/-- what the verified checker demands, by roles: every operand written through
+has class `loc`, every operand handed to a callee is not of class `any` -/
+theorem okInstr_demands (cert : Var → Cls) (ins : Instr) (h : okInstr cert ins = true) :
+    (∀ o ∈ writeOps ins, clsOp cert o = .loc) ∧ (∀ o ∈ handedOps ins, clsOp cert o ≠ .any) := by
+  cases ins with
+  | call f to isPtr ctx retPtr args =>
+    simp only [okInstr, Bool.and_eq_true, List.all_eq_true] at h
+    refine ⟨?_, fun o ho => by simpa using h.2 o ho⟩
+    cases retPtr with
+    | none => simp [writeOps]
+    | some r => simpa [writeOps, clsOp] using h.1.2
+  | callRt args =>
+    simp only [okInstr, List.all_eq_true] at h
+    exact ⟨by simp [writeOps], fun o ho => by simpa using h o ho⟩
+  | drop v hasFn =>
+    cases hasFn with
+    | true => simpa [writeOps, handedOps, okInstr] using h
+    | false => simp [writeOps, handedOps]
+  | initString to => simpa [writeOps, handedOps, okInstr, clsOp] using h
+  | initBytes to => simpa [writeOps, handedOps, okInstr, clsOp] using h
+  | write to val => simpa [writeOps, handedOps, okInstr] using h
+  | copy to src n => simpa [writeOps, handedOps, okInstr] using h
+  | clone to src => simpa [writeOps, handedOps, okInstr] using h
+  | _ => simp [writeOps, handedOps]
+
+theorem flatMap_atarget (env : Env) (args : List Operand) :
+    args.flatMap (fun o => atarget (evalOp env o)) = argTargets env args := by
+  induction args with
+  | nil => rfl
+  | cons a as ih => simp [argTargets, ih]
+
+/-- the write events of the checker's semantics are exactly those of the
+operands with a writing role — no instruction writes anywhere else -/
+theorem events_by_roles (env : Env) (nd : Val) (ins : Instr) :
+    (step env nd ins).2 = (writeOps ins).flatMap (fun o => wtarget (evalOp env o))
+      ++ (handedOps ins).flatMap (fun o => atarget (evalOp env o)) := by
+  cases ins with
+  | call f to isPtr ctx retPtr args =>
+    cases retPtr with
+    | none => simp only [step, writeOps, handedOps, optTargets, flatMap_atarget, List.flatMap_nil]
+    | some r =>
+      simp only [step, writeOps, handedOps, optTargets, List.flatMap_cons,
+        List.flatMap_nil, List.append_nil]
+      rw [flatMap_atarget]
+      rfl
+  | callRt args => simp only [step, writeOps, handedOps, flatMap_atarget, List.flatMap_nil, List.nil_append]
+  | drop v hasFn => cases hasFn <;> simp [step, writeOps, handedOps]
+  | _ => simp [step, writeOps, handedOps, evalOp]
+
+/-- and only the variable with the `defines` role changes -/
+theorem regs_by_roles (env : Env) (nd : Val) (ins : Instr) (v : Var) (hv : defVar ins ≠ some v) :
+    (step env nd ins).1 v = env v := by
+  cases ins with
+  | call f to isPtr ctx retPtr args =>
+    cases to with
+    | none => rfl
+    | some w =>
+      have : v ≠ w := fun e => hv (by simp [defVar, e])
+      simp [step, setOpt, Env.set, this]
+  | assign to val => have : v ≠ to := fun e => hv (by simp [defVar, e]); simp [step, Env.set, this]
+  | constAddr to n => have : v ≠ to := fun e => hv (by simp [defVar, e]); simp [step, Env.set, this]
+  | funcAddr to => have : v ≠ to := fun e => hv (by simp [defVar, e]); simp [step, Env.set, this]
+  | arith to p => have : v ≠ to := fun e => hv (by simp [defVar, e]); simp [step, Env.set, this]
+  | offset to s n => have : v ≠ to := fun e => hv (by simp [defVar, e]); simp [step, Env.set, this]
+  | read to p s => have : v ≠ to := fun e => hv (by simp [defVar, e]); simp [step, Env.set, this]
+  | eq to l r => have : v ≠ to := fun e => hv (by simp [defVar, e]); simp [step, Env.set, this]
+  | _ => rfl
+
+/-- non-vacuity of T6: the classification distinguishes the kinds (a store
+kind, a pure kind, a glue kind), and a misclassification is caught — `Write`
+checked as arithmetic would neither match its roles nor the generated codegen
+operations -/
+example :
+    shapeOf .kWrite = .write ∧ shapeOf .kAdd = .arith ∧ shapeOf .kEq = .eq
+    ∧ roleSummary (roles .kWrite) ≠ shapeSummary .arith
+    ∧ (codegenOps .kWrite).filter isMemOp ≠ expectedMemOps .arith
+    ∧ (codegenOps .kAdd).filter isMemOp = [] := by decide
+
+example :
+    (writeOps (.call 1 (some 3) false none (some 4) [.var 5]) = [.var 4])
+    ∧ okInstr (fun v => if v = 4 then .loc else .sc) (.call 1 (some 3) false none (some 4) [.var 5]) = true
+    ∧ okInstr (fun _ => .sc) (.call 1 (some 3) false none (some 4) [.var 5]) = false := by decide
+
+end T6
+
+namespace T5Example
+open Lir Exec
+
+/-- `main(n)`: reads a constant, calls `helper(c, n)` with its stack slot 10 as
+return pointer, lets a runtime function append to that slot, copies two cells
+to the host's return buffer. -/
+def main : Item where
+  slots := [10]
+  ret := some 1
+  ctx := some 0
+  params := [(2, false)]
+  instrs := [
+    .constAddr 5 7,
+    .read 6 false (.var 5),
+    .call 1 none false none (some 10) [.var 6, .var 2],
+    .callRt [.var 10, .var 6],
+    .copy (.var 1) (.var 10) 2,
+    .ret none]
+
+/-- `helper(a, b)`: writes `a + b` through its return pointer -/
+def helper : Item where
+  slots := []
+  ret := some 20
+  ctx := none
+  params := [(21, false), (22, false)]
+  instrs := [.arith 23 false, .write (.var 20) (.var 23), .ret none]
+
+def prog : List Item := [main, helper]
+
+/-- `helper` with the constant's address as its place (the clone skipped): one
+more item, not accepted -/
+def badMain : Item := { main with instrs := [.constAddr 5 7, .write (.var 5) (.var 2), .ret none] }
+
+def sem : Sem where
+  alu := fun _ _ env =>
+    match env 21, env 22 with
+    | .scalar a, .scalar b => .scalar (a + b)
+    | _, _ => .undef
+  next := fun _ pc _ => pc + 1
+  rt := fun _ _ handed ro _ =>
+    match handed, ro with
+    | .ptr r off :: x :: _, _ => { res := .undef, writes := [(r, off + 1, x)], delta := 1 }
+    | _, _ => { res := .undef, writes := [], delta := 0 }
+
+theorem sem_confined : RtConfined sem := by
+  intro fn pc handed ro view w hw
+  unfold sem at hw
+  simp only at hw
+  split at hw
+  · simp only [List.mem_singleton] at hw
+    subst hw
+    simp [atarget]
+  · cases hw
+
+/-- two calls, `main(1)` and `main(2)`, the constant holds 5 -/
+def m0 : Store Nat := fun a =>
+  match a with
+  | .priv i => .priv (initState prog 0 (fun _ => (i : Int) + 1))
+  | .shared (.const 7) 0 => .val (.scalar 5)
+  | _ => .val .undef
+
+def sched : List Nat := [0, 1, 1, 0, 0, 0, 1, 0, 1, 1, 0, 1, 0, 0, 1, 1, 0, 1]
+
+/-- non-vacuity of T5: a program with a call between items, a runtime call and
+a copy to the return buffer is accepted; its hypotheses hold for a really
+interleaved schedule; and the conclusion is the expected result for both calls
+(6 = 5 + 1 and 7 = 5 + 2 in the return buffer, the constant appended by the
+runtime function, one host value each, both finished, constant unchanged). -/
+example :
+    acceptProg prog = true ∧ RtConfined sem
+    ∧ (∀ i, m0 (.priv i) = .priv (initState prog 0 (fun _ => (i : Int) + 1)))
+    ∧ (let conc := run (schedOf (mstep prog sem) sched) m0
+       cellVal (conc (.loc 0 .ret 0)) = .scalar 6 ∧ cellVal (conc (.loc 1 .ret 0)) = .scalar 7
+       ∧ cellVal (conc (.loc 0 .ret 1)) = .scalar 5
+       ∧ finished conc 0 = true ∧ finished conc 1 = true ∧ acctOf conc 0 = 1
+       ∧ cellVal (conc (.shared (.const 7) 0)) = .scalar 5) := by
+  refine ⟨by decide, sem_confined, fun _ => rfl, ?_⟩
+  decide
+
+/-- the checker is not vacuous on programs either: an item that writes through
+a constant's address is rejected, a call site that passes a scalar to a
+pointer-typed parameter is rejected, and the rejected item really has a run in
+which call 0 changes what call 1 reads from the constant. -/
+example :
+    acceptProg [badMain] = false
+    ∧ acceptProg [{ main with instrs := [.call 1 none false none none [.var 2]] },
+                  { helper with params := [(21, true)] }] = false
+    ∧ cellVal (run (schedOf (mstep [badMain] sem) [0, 0]) m0 (.shared (.const 7) 0)) = .scalar 1 := by
+  refine ⟨by decide, by decide, by decide⟩
+
+def exSite : Nat → Nat → RtSite := fun _ _ =>
+  { auto := ⟨true, true⟩,
+    bounds := (Gen.C12Bounds.facts.registerableFnImpls.headD []) ++ Gen.C12Bounds.facts.registerableFnSuper }
+
+/-- non-vacuity of `rtConfined_of_sync` / `c12_on_tree`: the sites of the example
+are closures admitted through the generated bound list of the first
+`RegisterableFn` impl, `Send + Sync` as those bounds demand. -/
+example : SitesAdmitted Gen.C12Bounds.facts exSite ∧ SyncConfines sem exSite :=
+  ⟨fun _ _ => ⟨by simp only [exSite]; decide, by simp only [exSite]; decide⟩,
+   fun fn pc _ => sem_confined fn pc⟩
+
+end T5Example
 
 end RotoV.C12
